@@ -152,8 +152,8 @@ pub fn run(ctx: &Ctx, model: &mut Model, rep: &mut Report) {
     if let Some(path) = &ctx.replay {
         let v: serde_json::Value = serde_json::from_str(&std::fs::read_to_string(path).unwrap()).unwrap();
         rep.evaluations += 1;
-        if let Some(what) = run_witness(&parse_lib(&v["library"]), v["from"].as_str().unwrap_or("a"), v["new_name"].as_str().unwrap_or("zz")) {
-            rep.fail(json!({"kind": "rename", "library": v["library"], "from": v["from"], "new_name": v["new_name"], "what": what}));
+        if let Some(what) = act::with_via(act::via_from(&v["via"]), || run_witness(&parse_lib(&v["library"]), v["from"].as_str().unwrap_or("a"), v["new_name"].as_str().unwrap_or("zz"))) {
+            rep.fail(json!({"kind": "rename", "library": v["library"], "from": v["from"], "new_name": v["new_name"], "via": v["via"], "what": what}));
         }
         return;
     }
@@ -220,11 +220,13 @@ pub fn run(ctx: &Ctx, model: &mut Model, rep: &mut Report) {
                         rep.disagree(json!({"op": format!("rename at {}:{}:{} to {:?}", from, site.line, site.col, new_name), "model": crate::props::c04::decode(&cut(&reply)), "impl": real_s, "library": l0, "ext": ext}));
                     }
                 }
-                match check_rename(&l0, ext, from, site, new_name) {
+                let via = act::via_for(tried as u64);
+                rep.count(&format!("loaded_via_{:?}", via));
+                match act::with_via(via, || check_rename(&l0, ext, from, site, new_name)) {
                     Outcome::Ok => {}
                     Outcome::Skip => rep.count("request_panics"),
                     Outcome::Known(id) => rep.count(&format!("attributed_to_{}", id)),
-                    Outcome::Bad(what) => rep.fail(json!({"kind": "rename", "library": lib, "ext": ext, "from": from, "line": site.line, "col": site.col, "new_name": new_name, "what": what})),
+                    Outcome::Bad(what) => rep.fail(json!({"kind": "rename", "library": lib, "ext": ext, "from": from, "line": site.line, "col": site.col, "new_name": new_name, "via": format!("{:?}", via), "what": what})),
                 }
             }
         }
